@@ -12,6 +12,9 @@ Representation chosen by the translator:
   types.Hash & co.      ↦ List Nat     (`[N]byte` named types: the bytes, each < 256 — `ZV.Bytes`)
   [8]byte               ↦ List Nat
   error                 ↦ Option String (nil = none; a sentinel `ErrX` = some "ErrX"; errors.Errorf/New = some "errorf")
+  []byte                ↦ List Nat     (nil and empty are not distinguished; an element `x[i]` ↦ Nat, compared only)
+  []int64 / []uint64 / []int (package-level tables of constants, read at their initial value) ↦ List (BitVec 64)
+  for i := a; i < b; i++ { … }  ↦ `loopThen (forIn (upS a b) s₀ (fun i s => …)) (fun s => …)` over the loop-carried locals
 -/
 namespace ZV.Go
 
@@ -40,6 +43,8 @@ def bigSign (x : Int) : BitVec 64 := bigCmp x 0
 def bigUint64 (x : Int) : BitVec 64 := BitVec.ofNat 64 x.natAbs
 /-- `x.IsUint64()` -/
 def bigIsUint64 (x : Int) : Bool := decide (0 ≤ x ∧ x < 18446744073709551616)
+/-- `x.BitLen()`: the length of |x| in bits, 0 for 0 -/
+def bigBitLen (x : Int) : BitVec 64 := BitVec.ofNat 64 (if x = 0 then 0 else Nat.log2 x.natAbs + 1)
 /-- `z.Quo(x, y)` for y ≠ 0: truncated toward zero (the translator guards y = 0 as a panic) -/
 def bigQuo (x y : Int) : Int := Int.tdiv x y
 /-- `z.Div(x, y)` for y ≠ 0: Euclidean division (remainder ≥ 0) -/
@@ -57,5 +62,49 @@ def le8 (v : BitVec 64) : List Nat :=
 
 /-- the zero value of `[8]byte` -/
 def zero8 : List Nat := List.replicate 8 0
+
+/-! ### slices, package-level tables, counting loops (round 6) -/
+
+/-- `len(x)` as an `int` -/
+def len {α : Type} (l : List α) : BitVec 64 := BitVec.ofNat 64 l.length
+
+/-- the bounds check of `x[i]` for a signed index: Go panics (index out of range) iff `i < 0 ∨ i ≥ len(x)` -/
+def oobS {α : Type} (l : List α) (i : BitVec 64) : Bool := decide (i.toInt < 0) || decide (l.length ≤ i.toNat)
+/-- the bounds check of `x[i]` for an unsigned index -/
+def oobU {α : Type} (l : List α) (i : BitVec 64) : Bool := decide (l.length ≤ i.toNat)
+/-- `x[i]` of a byte slice / byte array once the bounds check passed -/
+def atB (l : List Nat) (i : BitVec 64) : Nat := l.getD i.toNat 0
+/-- `x[i]` of a slice of 64-bit integers once the bounds check passed -/
+def atW (l : List (BitVec 64)) (i : BitVec 64) : BitVec 64 := l.getD i.toNat 0#64
+
+/-- the values the counter of `for i := a; i < b; i++` takes (signed comparison; the body does not assign `i`) -/
+def upS (a b : BitVec 64) : List (BitVec 64) := (List.range (b.toInt - a.toInt).toNat).map (fun k => a + BitVec.ofNat 64 k)
+/-- the same for an unsigned counter -/
+def upU (a b : BitVec 64) : List (BitVec 64) := (List.range (b.toNat - a.toNat)).map (fun k => a + BitVec.ofNat 64 k)
+/-- the values the counter of `for i := a; i > b; i--` takes (signed comparison) -/
+def downS (a b : BitVec 64) : List (BitVec 64) := (List.range (a.toInt - b.toInt).toNat).map (fun k => a - BitVec.ofNat 64 k)
+
+/-- outcome of one iteration of a translated loop body over the loop-carried variables `σ`:
+    fall through / `continue` (next), `break` (brk), or the enclosing function is left (done: return, panic, exit) -/
+inductive Step (σ ρ : Type) where
+  | next (s : σ)
+  | brk (s : σ)
+  | done (r : Res ρ)
+
+/-- a counting loop as a fold over the values of its counter, stopping at the first `break` / `return` / panic -/
+def forIn {σ ρ : Type} : List (BitVec 64) → σ → (BitVec 64 → σ → Step σ ρ) → Step σ ρ
+  | [], s, _ => .next s
+  | i :: is, s, body =>
+    match body i s with
+    | .next s' => forIn is s' body
+    | .brk s' => .brk s'
+    | .done r => .done r
+
+/-- what follows the loop: runs on the final loop-carried variables unless the loop left the function -/
+def loopThen {σ ρ : Type} (r : Step σ ρ) (k : σ → Res ρ) : Res ρ :=
+  match r with
+  | .next s => k s
+  | .brk s => k s
+  | .done r => r
 
 end ZV.Go
